@@ -929,8 +929,9 @@ def run(ctx):
     timed("wait_free", collect_free, ctx, free, mode or "live", witness)
     timed("wait_sentinel", c13_shared.collect_sentinels, ctx, sentinels)
     ce, me = ctx.notes.get("cache_exploration", {}), ctx.notes.get("memo_exploration", {})
-    ctx.cov["transitions"] = ce.get("fine_steps", 0) + me.get("quanta", 0)
-    ctx.cov["traces_validated_against_impl"] = ce.get("runs", 0) + me.get("runs", 0)
+    de, fe = ctx.notes.get("dict_exploration", {}), ctx.notes.get("filter_exploration", {})
+    ctx.cov["transitions"] = ce.get("fine_steps", 0) + me.get("quanta", 0) + de.get("quanta", 0) + fe.get("quanta", 0)
+    ctx.cov["traces_validated_against_impl"] = ce.get("runs", 0) + me.get("runs", 0) + de.get("runs", 0) + fe.get("runs", 0)
     ctx.cov["rule"] = (
         "A:cache:<method>:<config> = one complete interleaving of 2 threads around the lookup loop of COO.transpose / COO.reshape on a shared "
         "cache-enabled array (all interleavings enumerated depth-first for the configurations empty / one-entry / hit / same-key / both-hit; "
